@@ -353,6 +353,14 @@ func judge(id, tier, repo, verif string, cfg Config, p *Prog, loadErr error, t0 
 	if p != nil {
 		ev.Coverage["not_analysed"] = p.NotAnalysed
 		ev.Coverage["vta_rounds"] = p.VTARounds
+		ev.Coverage["normalisation"] = map[string]interface{}{
+			"rule":           "calls to functions absent from the frozen function table (code split off from a known function) are expanded in place at the source level before the rules run (overlay, nothing written to the repository); see checker/inline.go",
+			"expanded_sites": p.Inlined,
+			"failed":         p.InlineFailed,
+		}
+		if len(p.Inlined) > 0 || p.InlineFailed != "" {
+			fmt.Printf("-- normalisation: %d call site(s) of novel helpers expanded before the analysis %s\n", len(p.Inlined), p.InlineFailed)
+		}
 	}
 	for k, v := range variantInfo {
 		ev.Coverage[k] = v
